@@ -6,6 +6,7 @@ AGENT_RW = {'imports': {
     'store.go': {'net/http': MC + '/vhttp', 'os/signal': MC + '/vsignal', 'time': MC + '/vtime'},
     'hooks.go': {'os/exec': MC + '/vexec', 'time': MC + '/vtime'},
     '*': {'time': MC + '/vtime'}}}
+STORE_FILEOPS = [('store', {'fileops': True})]
 AGENT_SEQ = {'only_imports': True, 'imports': {'web_session.go': {'time': MC + '/vtime'}}}
 
 
@@ -55,7 +56,7 @@ CHECKS = {
         'technique': 'exhaustive enumeration of configuration documents (every single-field mutation of valid configurations, numeric edge grids) vs. a reference predicate, accepted sets exercised in worker subprocesses; exhaustive schedule exploration (state-pruned reachability + deviation-bounded DFS) of reload signals against request streams on the rewritten agent',
         'text': 'Every document of the enumeration is loaded with the real loader and compared with a three-valued reference predicate derived from the statement; every accepted document is used (add + authenticate under each set) in a subprocess so that crashes are observed.',
         'note': 'Numeric values beyond the sandbox resources are excluded (stated in the evidence); reload scenarios use 1-3 signals and 1-2 clients.',
-        'parts': [GoBin('loader', 'harness/c18'), McPart('reload', 'C18', 'cmd/whawty-auth', ['harness/agentmc'], AGENT_RW)],
+        'parts': [GoBin('loader', 'harness/c18'), McPart('reload', 'C18', 'cmd/whawty-auth', ['harness/agentmc'], AGENT_RW, extra_rewrites=STORE_FILEOPS)],
     },
     'C16': {
         'level': 'model_checking',
@@ -103,7 +104,7 @@ CHECKS = {
         'technique': 'exhaustive schedule exploration of the rewritten agent (state-pruned full reachability + deviation-bounded DFS); per-execution exhaustive linearizability search against a sequential store model incl. final-store read-out',
         'text': 'Every interleaving of 2-4 clients x 1-2 operations on overlapping users (Store interface, SASL callback, LDAP bind; upgrades off and local) is executed on the real dispatcher; each complete history must have a sequential order consistent with real time that explains every response and the final store directory.',
         'note': 'Histories of at most 8 operations; channel-level scheduling points; sequential reference model = property statement; data races left to the -race twin.',
-        'parts': [McPart('mc', 'C11', 'cmd/whawty-auth', ['harness/agentmc'], AGENT_RW),
+        'parts': [McPart('mc', 'C11', 'cmd/whawty-auth', ['harness/agentmc'], AGENT_RW, extra_rewrites=STORE_FILEOPS),
                   RwTest('race', 'cmd/whawty-auth', ['harness/agentseq'], AGENT_SEQ, '^TestRace$', race=True, env={'VERIF_RACE_PROP': 'C11'})],
     },
     'C03': {
@@ -144,7 +145,7 @@ CHECKS = {
         'technique': 'exhaustive schedule exploration (state-pruned full reachability) of login sequences against the rewritten agent for every (record set, default) pair, every frontend and upgrade mode; explicit-state closure at library level for the upgradeable flag',
         'text': 'For every cell the real agent is explored to quiescence under all schedules: with upgrades on, a successful login of an upgradeable record ends with the record under the default set for exactly the same password, aux data and admin flag unchanged, no longer upgradeable; wrong logins, up-to-date records, policy-failing passwords and upgrades-off leave every byte (and the hooks) untouched; the upgradeable flag itself is checked at library level in every state of the C01 closure.',
         'note': 'Single-client login sequences (idle agent) plus one two-client scenario; the interaction with concurrent management requests is C11.',
-        'parts': [McPart('mc', 'C12', 'cmd/whawty-auth', ['harness/agentmc'], AGENT_RW), GoBin('upgradeable', 'harness/c01', env={'VERIF_AS': 'C12'})],
+        'parts': [McPart('mc', 'C12', 'cmd/whawty-auth', ['harness/agentmc'], AGENT_RW, extra_rewrites=STORE_FILEOPS), GoBin('upgradeable', 'harness/c01', env={'VERIF_AS': 'C12'})],
     },
     'C19': {
         'level': 'model_checking',
@@ -152,7 +153,7 @@ CHECKS = {
         'technique': 'exhaustive schedule exploration of the rewritten agent + hook caller with virtual rate-limit/kill timers and modelled exec (state-pruned full reachability + deviation-bounded DFS); exhaustive enumeration of hooks-directory contents',
         'text': 'Every ordering of change notifications, timer expiries and hook-process events is explored on the real hooks loop; monitors on the recorded process starts: every store change is followed by a round for that store, at most two rounds per interval, nothing runs without a change, a hanging hook is killed after exactly one minute and never blocks the agent. Every directory content of the enumeration is judged against the eligibility rule.',
         'note': 'Processes are modelled (real eligibility test of the file, behaviour fast/failing/hanging chosen by the harness); timers are virtual.',
-        'parts': [McPart('mc', 'C19', 'cmd/whawty-auth', ['harness/agentmc'], AGENT_RW)],
+        'parts': [McPart('mc', 'C19', 'cmd/whawty-auth', ['harness/agentmc'], AGENT_RW, extra_rewrites=STORE_FILEOPS)],
     },
     'C05': {
         'level': 'model_checking',
@@ -186,6 +187,6 @@ CHECKS = {
         'technique': 'stateless + state-pruned exhaustive schedule exploration of the real (mechanically rewritten) agent under a controlled scheduler; deadlock oracle',
         'text': 'All interleavings (full reachability with state-key pruning for capacity-scaled systems, deviation-bounded under four canonical orders for the true queue capacities) of client requests against the real dispatcher/hooks/upgrader code; oracle: no reachable state without an enabled thread while a request is unanswered, daemons back at their loop heads at quiescence.',
         'note': 'Channel-level scheduling points; modelled timers/exec/http; capacity scaling is an abstraction backed by the true-capacity runs; client mixes are the stated scenarios.',
-        'parts': [McPart('mc', 'C10', 'cmd/whawty-auth', ['harness/agentmc'], AGENT_RW), BindPart('binding', 'C10', AGENT_RW, AGENT_SEQ)],
+        'parts': [McPart('mc', 'C10', 'cmd/whawty-auth', ['harness/agentmc'], AGENT_RW, extra_rewrites=STORE_FILEOPS), BindPart('binding', 'C10', AGENT_RW, AGENT_SEQ)],
     },
 }
